@@ -153,24 +153,35 @@ def run(ctx):
     site = F + ":sign_extend"
     env = sym.single_assign_env(fn)
     rets = _returns(fn)
-    ok_sign = ok_mask = ok_form = False
-    if len(rets) == 1 and isinstance(rets[0].value, ast.BinOp) and isinstance(rets[0].value.op, ast.Sub):
-        l, r = rets[0].value.left, rets[0].value.right
+    bm1 = sym.atom("bits") - sym.const(1)
+    main = [r for r in rets if isinstance(r.value, ast.BinOp) and isinstance(r.value.op, ast.Sub)]
+    ok_sign = ok_mask = False
+    if len(main) == 1:
+        l, r = main[0].value.left, main[0].value.right
         def and_parts(x):
             x = sym.inline(x, env)
             if isinstance(x, ast.BinOp) and isinstance(x.op, ast.BitAnd):
                 return [x.left, x.right]
             return []
         lp, rp = and_parts(l), and_parts(r)
-        bm1 = sym.atom("bits") - sym.const(1)
         ok_mask = any(sym.mask_width(p, env) == bm1 for p in lp) and any(norm(p) == "value" for p in lp)
         ok_sign = any(sym.pow2_exp(p, env) == bm1 for p in rp) and any(norm(p) == "value" for p in rp)
-        ok_form = True
-    if not ok_form:
-        ctx.undecided("C39.R3", site, "return is not `(value & mask) - (value & sign_bit)`")
-    else:
-        ctx.ob("C39.R3", site, "low part mask is (1 << (bits-1)) - 1", ok_mask, construct="mask")
-        ctx.ob("C39.R3", site, "subtracted sign weight is 1 << (bits-1)", ok_sign, construct="sign-bit")
+    ctx.ob("C39.R3", site, "low part mask is (1 << (bits-1)) - 1", ok_mask, construct="mask")
+    ctx.ob("C39.R3", site, "subtracted sign weight is 1 << (bits-1)", ok_sign, construct="sign-bit")
+    # any other return is a shortcut: it may only pass the value through where that equals the formula, i.e. for 0 <= value < 2^(bits-1)
+    for r in [x for x in rets if x not in main]:
+        cj = [(e, pol) for e, pol in sym.conjuncts(r, fn, {})]
+        texts = [" ".join(norm(e).split()) for e, pol in cj if pol]
+        lower = any(t in ("value >= 0", "0 <= value", "value > -1") or t.startswith("0 <= value <") for t in texts)
+        upper = False
+        for e, pol in cj:
+            if pol and isinstance(e, ast.Compare):
+                ops = [e.left] + list(e.comparators)
+                for i, op in enumerate(e.ops):
+                    if isinstance(op, ast.Lt) and norm(ops[i]) == "value" and sym.pow2_exp(ops[i + 1], env) == bm1:
+                        upper = True
+        ctx.ob("C39.R3", site, "a shortcut `return value` is taken only for 0 <= value < 2^(bits-1) (a negative Python int below the field minimum must still be reduced to its low `bits` bits)",
+               norm(r.value) == "value" and lower and upper, construct="shortcut-return", node=r, detail="; ".join(texts))
 
     from ..shapes import check_wrap_function
     check_wrap_function(ctx, "C39.R3", ctx.fn(F, "correct"), F + ":correct")
